@@ -20,7 +20,8 @@
     no third party talks on the network.  Port names are arbitrary but distinct
     where akita requires it. *)
 From VMem Require Import Pmc PmcLemmas PmcProofs PmcLive PmcBi PmcBi7 PmcExamples.
-From VDrv Require Import Migration MigrationProofs Handshake HandshakeProofs HandshakeExamples.
+From Coq Require Import Permutation.
+From VDrv Require Import Migration MigrationProofs MigrationPages Handshake HandshakeProofs HandshakePages HandshakeExamples.
 Open Scope N_scope.
 
 (** [completed s]: the accepted requests for which a completion response has
@@ -328,3 +329,84 @@ Example handshake_demo :
               CRdmaRestart 0; CRdmaRestart 1] /\
   h_mmu_out s = [mkMRsp 50 [4096; 8192] true].
 Proof. split; [exact demo_hs_valid|exact demo_hs_result]. Qed.
+
+(** ** A request with several pages, for several requesting GPUs
+
+    GPUReqToVAddrMap is a Go map from requesting GPU to a list of virtual
+    pages; processShootdownCompleteRsp walks it with `range`, so the order of
+    the groups is not determined ([mr_order q] is the order the iteration
+    happened to use; [map_order_ok]: it lists every group once).  Whatever the
+    order: when the first GPU restart leaves the driver, the page requests it
+    has sent are, as a multiset, exactly one per (requesting GPU, page) of the
+    request - none missing, none twice. *)
+Theorem handshake_every_page_once : forall n evs,
+  hvalid (hs_init n) evs ->
+  let s := hrun (hs_init n) evs in
+  match h_cur s with
+  | None => True
+  | Some q =>
+    (0 < sentk RRestart (Handshake.g_sent s))%nat ->
+    NoDup (map fst (groups_of n q)) /\ Permutation (mr_order q) (map fst (groups_of n q)) ->
+    Permutation (filter is_mig (Handshake.g_sent s))
+                (flat_map (fun gp => map (fun va => CMig (fst gp - 1) (mr_host q) (mr_pagesize q) va) (snd gp))
+                          (groups_of n q))
+  end.
+Proof. exact HandshakePages.every_page_once. Qed.
+Print Assumptions handshake_every_page_once.
+
+Example every_page_once_demo :
+  hvalid (hs_init 3) demo_hs2 /\
+  let s := hrun (hs_init 3) demo_hs2 in
+  h_cur s = Some demo_q2 /\ (0 < sentk RRestart (Handshake.g_sent s))%nat /\
+  NoDup (map fst (groups_of 3 demo_q2)) /\ Permutation (mr_order demo_q2) (map fst (groups_of 3 demo_q2)) /\
+  filter is_mig (Handshake.g_sent s) = [CMig 2 1 4096 12288; CMig 1 1 4096 4096; CMig 1 1 4096 8192].
+Proof.
+  split; [exact demo_hs2_valid|]. cbv zeta. split; [apply demo_hs2_result|].
+  split; [vm_compute; lia|]. split; [vm_compute; repeat constructor; cbn; intuition discriminate|].
+  split; [vm_compute; apply perm_swap|]. vm_compute. reflexivity.
+Qed.
+
+(** The page-table and memory side of the same loop ([VDrv.MigrationPages]):
+    [prepare_pages] is preparePageForMigration called for every (GPU index,
+    virtual page) of the request in turn, producing one PageMigrationReqToCP
+    ([copy]: read from the old physical page, write to the new one) per page;
+    [exec_copies] performs the copies one after the other, as the driver has
+    them done.  [hygiene]: what the allocator guarantees - a free physical page
+    is listed once, on one device, and is not mapped.  Then for every page of
+    the request: its request goes to the requesting GPU, reads the physical
+    page the table held before, writes a page that was free on that GPU, and
+    the table afterwards maps the virtual page to that new page on that GPU;
+    after the copies every new page holds what the old page held (for every
+    memory), no other physical page changed, and entries of other virtual
+    pages are untouched. *)
+Theorem migration_every_page_copied_and_remapped : forall l d pid d' cs,
+  hygiene d -> NoDup (map snd l) -> (forall gv, In gv l -> pt_align d (snd gv) = snd gv) ->
+  prepare_pages d pid l = Some (d', cs) ->
+  Forall2 (fun gv c =>
+    cp_gpu c = fst gv /\
+    (exists pg, pt_find_in d (d_pt d) pid (snd gv) = Some pg /\ cp_read c = pg_paddr pg) /\
+    In (cp_write c) (d_alloc d (fst gv + 1)) /\
+    (exists np, pt_find_in d' (d_pt d') pid (snd gv) = Some np /\ pg_paddr np = cp_write c /\
+                pg_device np = fst gv + 1 /\ pg_migrating np = true /\ pg_valid np = true)) l cs /\
+  (forall m c, In c cs -> exec_copies m cs (cp_write c) = m (cp_read c)) /\
+  (forall m a, ~ In a (map cp_write cs) -> exec_copies m cs a = m a) /\
+  (forall pid' va', (forall gv, In gv l -> (pid', pt_align d va') <> (pid, snd gv)) ->
+     pt_find_in d' (d_pt d') pid' va' = pt_find_in d (d_pt d) pid' va').
+Proof. exact every_page_copied_and_remapped. Qed.
+Print Assumptions migration_every_page_copied_and_remapped.
+
+(** non-vacuity: two pages for GPU index 1 and one for GPU index 2 in one request; a fourth page stays *)
+Example every_page_demo :
+  hygiene ex_d /\ NoDup (map snd ex_request) /\
+  (forall gv, In gv ex_request -> pt_align ex_d (snd gv) = snd gv) /\
+  exists d', prepare_pages ex_d 7 ex_request =
+    Some (d', [mkCopy 1 4096 1048576; mkCopy 1 8192 1052672; mkCopy 2 12288 2097152]) /\
+  option_map pg_paddr (pt_find_in d' (d_pt d') 7 4096) = Some 1048576 /\
+  option_map pg_paddr (pt_find_in d' (d_pt d') 7 8192) = Some 1052672 /\
+  option_map pg_paddr (pt_find_in d' (d_pt d') 7 12288) = Some 2097152 /\
+  option_map pg_paddr (pt_find_in d' (d_pt d') 7 16384) = Some 16384.
+Proof.
+  split; [exact ex_hygiene|]. split; [repeat constructor; cbn; intuition discriminate|].
+  split; [|exact ex_prepare].
+  intros gv [<-|[<-|[<-|[]]]]; reflexivity.
+Qed.
